@@ -115,6 +115,8 @@ def job_pair(E, version, fields, route, topcomment=False, _mutants=None):
         force.pop(BASEKEY[f], None)
     if topcomment:
         force["comment-top"] = True
+    if version == 1:
+        force["layers"] = True
     fs, w, base = setup(E, version, force, _mutants)
     kinds = {}
     for f in fields:
@@ -146,6 +148,8 @@ def job_pair(E, version, fields, route, topcomment=False, _mutants=None):
 
 def job_all(E, version, route, _mutants=None):
     force = {"comment-top": False}
+    if version == 1:
+        force["layers"] = True
     fs, w, base = setup(E, version, force, _mutants)
     kinds = {"announce": "list2" if route == "cli" else "str", "url-list": "list1", "httpseeds": "list2", "comment": "str",
              "source": "str", "private": "true"}
@@ -165,6 +169,7 @@ def job_history(E, version, steps, route, _mutants=None):
     force = {k: False for k in ("announce", "comment-top", "httpseeds", "comment", "private", "source", "url-list")}
     for f in touched:
         force.pop(BASEKEY[f], None)
+    force["layers"] = True
     fs, w, base = setup(E, version, force, _mutants)
     kinds_tab = CLI_KINDS if route == "cli" else KINDS
     last = {}
@@ -226,26 +231,30 @@ def conc_base(version, model, force_top=False):
     info = {}
     if has("comment"):
         info["comment"] = "old comment"
-    data_a, data_b = refconc.content("a", 70000), refconc.content("b", 5)
+    big = 70000 if int(model.get("base.layers", 1)) == 1 else 30000
+    data_a, data_b, data_c = refconc.content("a", big), refconc.content("b", 5), refconc.content("c", 7)
     if version in (2, 3):
         ra, la = refconc.v2_file(data_a, 32768)
         rb, _ = refconc.v2_file(data_b, 32768)
-        info["file tree"] = {"a": {"": {"length": 70000, "pieces root": ra}}, "b": {"": {"length": 5, "pieces root": rb}}}
+        rc, _ = refconc.v2_file(data_c, 32768)
+        info["file tree"] = {"announce": {"": {"length": big, "pieces root": ra}}, "comment": {"": {"length": 5, "pieces root": rb}},
+                             "private": {"source": {"": {"length": 7, "pieces root": rc}}, "url-list": {"": {"length": 0}}}}
     if version in (1, 3):
-        info["files"] = [{"length": 70000, "path": ["a"]}, {"length": 5, "path": ["b"]}]
+        info["files"] = [{"length": big, "path": ["announce"]}, {"length": 5, "path": ["comment"]},
+                         {"length": 7, "path": ["private", "source"]}, {"length": 0, "path": ["private", "url-list"]}]
     if version in (2, 3):
         info["meta version"] = 2
     info["name"] = "name"
     info["piece length"] = 32768
     if version in (1, 3):
-        info["pieces"] = refconc.v1_pieces(data_a + data_b, 32768)
+        info["pieces"] = refconc.v1_pieces(data_a + data_b + data_c, 32768)
     if has("private"):
         info["private"] = 1
     if has("source"):
         info["source"] = "old source"
     meta["info"] = info
     if version in (2, 3):
-        meta["piece layers"] = {ra: la}
+        meta["piece layers"] = {ra: la} if la is not None else {}
     if has("url-list"):
         meta["url-list"] = ["http://old/w"]
     return meta
